@@ -23,3 +23,13 @@ WSFRAME_TB = [
     "returned receiver (no other alias of the frame is written in the translated functions: read off the source by the translator, "
     "which refuses element assignment to anything but the receiver)",
 ]
+
+
+# ---- components borrowed by sibling properties (a change to shared code usually breaks several properties at once; each check
+# looks for its own clauses — "keys" — in what the shared component's monitor reports) -------------------------------------------
+RUN_WSHANDSHAKE_SMALL = {"component": "wshandshake", "quick": {"gen": [(150, 4)]}, "thorough": {"gen": [(1200, 5)]}, "timeout": 1500}
+RUN_WSSTREAM_SMALL = {"component": "wsstream", "quick": {"gen": [(8000, 30)], "enum": [(3, 1)]}, "thorough": {"gen": [(40000, 40)], "enum": [(4, 1)]}}
+RUN_WSCONC_SMALL = {"component": "wsconc", "quick": {"gen": [(700, 16)]}, "thorough": {"gen": [(8000, 22)]}}
+RUN_WSWRITE_SMALL = {"component": "wswrite", "quick": {"gen": [(1500, 12)]}, "thorough": {"gen": [(12000, 14)]}}
+RUN_LOOP_SCENARIOS = {"component": "loop", "quick": {"enum": [["scenarios"]]}, "thorough": {"enum": [["scenarios"]]}, "timeout": 1500}
+RUN_FDS_SMALL = {"component": "fds", "quick": {"gen": [(400, 16)], "enum": [(3,)]}, "thorough": {"gen": [(6000, 24)], "enum": [(4,)]}, "timeout": 900}
